@@ -2324,7 +2324,10 @@ def drops_do_not_block_unmasked(ctx, rule="R-EXIT"):
         memo[g.id] = None
         if depth > 6: return None
         guards = an.sites(g, GUARD, "must")
-        pre = an.reach(g, [Point(0, 0)], blocked=guards)          # points not dominated by a guard creation
+        # points not dominated by a guard creation - except through `thread::panicking()` is true: check_cancel never raises the Cancel panic
+        # while the thread is unwinding, so `if panicking() { None } else { Some(guard) }` masks whenever there is something to mask
+        blk_p, _ = ctx.edge_blocker(g, call_true(r"std::thread::panicking")) if guards else (None, None)
+        pre = an.reach(g, [Point(0, 0)], blocked=guards, blocked_edges=blk_p)
         for pt in sorted(an.sites(g, PARK, "may")):
             if pt not in pre: continue
             t = g.node(pt)
@@ -2597,10 +2600,18 @@ def worker_run_budget_rules(ctx, rule="R-EXIT"):
             if sum(1 for z in c[2] if _sv(z)[0] == "const") > 1: return False
             return any(advancing(z) for z in c[2] if _sv(z)[0] != "const")
         return False
+    def const_expr(o, d=0):
+        o = _sv(o)
+        if d > 6: return False
+        if o[0] == "const": return True
+        if o[0] == "bin": return const_expr(o[2], d + 1) and const_expr(o[3], d + 1)       # `K - 1`, `A * 8`
+        if o[0] == "field" and o[2] == "(tuple)": return const_expr(o[1], d + 1)            # checked arithmetic
+        if o[0] == "cast": return const_expr(o[1], d + 1)
+        return False
     def budget(a):
         if a.kind != "cmp": return False
-        if a.op in ("Ge", "Gt", "Eq") and _sv(a.b)[0] == "const" and advancing(a.a): return True
-        if a.op in ("Le", "Lt", "Eq") and _sv(a.a)[0] == "const" and advancing(a.b): return True
+        if a.op in ("Ge", "Gt", "Eq") and const_expr(a.b) and advancing(a.a): return True
+        if a.op in ("Le", "Lt", "Eq") and const_expr(a.a) and advancing(a.b): return True
         return False
     exits = set(); nowake = []
     for (bi, tb, lab) in ctx.edges(f, budget):
